@@ -63,6 +63,13 @@ def text_cases(rng, tier):
         out.append('{"type":"array","items":' * depth + '"int"' + "}" * depth)
         out.append("[" * depth + '"int"' + "]" * depth)
         out.append('{"type":"record","name":"R","fields":[{"name":"f","type":' * depth + '"int"' + "}]}" * depth)
+    # "diamonds": record R_i has two fields of type R_(i-1) - 45 small records, a few kilobytes of text; a check that walks every PATH through
+    # the records instead of every record needs 2^45 steps
+    for n in (10, 45):
+        recs = ['{"type":"record","name":"R0","fields":[{"name":"x","type":"int"}]}']
+        recs += ['{"type":"record","name":"R%d","fields":[{"name":"a","type":"R%d"},{"name":"b","type":"R%d"}]}' % (i, i - 1, i - 1) for i in range(1, n + 1)]
+        out.append("[" + ",".join(recs) + "]")
+        out.append('{"type":"record","name":"Top","fields":[{"name":"u","type":[' + ",".join(recs) + ']},{"name":"again","type":"R%d"}]}' % n)
     out.append('"' + "n" * (1 << 20) + '"')
     out.append('{"type":"record","name":"' + "N" * (1 << 20) + '","fields":[]}')
     out.append('{"type":"fixed","name":"F","size":18446744073709551615}')
